@@ -36,7 +36,9 @@ impl VM {
             //@VACUITY
             ({
                 let (vm1, gc1, r1) = run_code_result(VM { gc: spec_new_gc(), ..*old(self) }, code, old(self).gc);
-                r == r1 && final(self).gc == gc1
+                // the machine is left EXACTLY as the interpreter loop left it (globals, stack, frames, ...), with
+                // the collector put back - on success and on every error path (strengthened after seeded change C17-2)
+                r == r1 && *final(self) == (VM { gc: gc1, ..vm1 })
             }),
     {
 //@BODY file=vm.rs fn=run impl=VM sig="pub fn run(&mut self, code: Bytecode) -> Result<Object, Error>" rules="R1;R4;R8[std::mem::replace(&mut self.gc, GC::new())=>mem_replace_gc(&mut self.gc, GC::new())]"
